@@ -41,6 +41,49 @@ def temp_sites(ctx):
                     yield fi, c, r[1]
 
 
+def scratch_name_obligations(ctx, rule):
+    """A file a function writes and then moves into place or removes itself is a scratch file: its name must come from the
+    tempfile API (unique per call) or be the caller's own path.  A name put together from constants / the form's name is
+    the same for every concurrent call in that directory: two dumps overwrite, move and delete each other's file."""
+    from ..astutil import subst_locals
+    repo = ctx.repo
+    n = 0
+    for fi in repo.all_functions():
+        a = fi.node.args
+        params = {x.arg for x in [*a.posonlyargs, *a.args, *a.kwonlyargs]}
+        temp_names = set()
+        for x in walk_own(fi.node):
+            if isinstance(x, ast.Assign) and isinstance(x.value, ast.Call):
+                r = repo.resolve_dotted(fi.module, x.value.func)
+                if r and r[0] == "ext" and r[1] in TEMP_FACTORIES:
+                    for t in x.targets:
+                        temp_names |= {n_.id for n_ in ast.walk(t) if isinstance(n_, ast.Name)}
+        temp_names = set().union(*[_derived_names(fi.node, t) for t in temp_names]) if temp_names else set()
+        for c in walk_own(fi.node):
+            if not isinstance(c, ast.Call):
+                continue
+            cn = call_name(c)
+            src = None
+            if cn in ("replace", "rename", "move") and isinstance(c.func, ast.Attribute) and len(c.args) == 2 and norm(c.func.value) in ("os", "shutil"):
+                src = c.args[0]
+            elif cn in ("replace", "rename") and isinstance(c.func, ast.Attribute) and len(c.args) == 1 and norm(c.func.value) not in ("os", "shutil") and not isinstance(c.func.value, ast.Constant) \
+                    and any(isinstance(y, ast.Call) and call_name(y) in ("write_text", "write_bytes", "open") and norm(getattr(y.func, "value", y)) == norm(c.func.value) for y in walk_own(fi.node)):
+                src = c.func.value     # Path(...).replace(target) after writing it
+            if src is None:
+                continue
+            n += 1
+            if fi.module.name.startswith("pyxform.validators.updater"):
+                continue  # the validator installer (a maintenance tool, not the conversion): counted as the rule's positive example only
+            names = {n_.id for n_ in ast.walk(src) if isinstance(n_, ast.Name)}
+            full = subst_locals(src, fi.node)
+            names_full = {n_.id for n_ in ast.walk(full) if isinstance(n_, ast.Name)}
+            from_temp = bool(names & temp_names) or any(isinstance(y, ast.Call) and (repo.resolve_dotted(fi.module, y.func) or (None, None))[1] in TEMP_FACTORIES for y in ast.walk(full))
+            is_param = isinstance(src, ast.Name) and src.id in params and not any(isinstance(y, ast.Assign) and any(isinstance(t, ast.Name) and t.id == src.id for t in y.targets) for y in walk_own(fi.node))
+            rule.check(from_temp or is_param, f"{fi.fq}:scratch file {norm(src)[:40]}", "the file that is written and then moved into place is named by the tempfile API (or is the caller's own path)", fi.loc(c),
+                       why_fail=f"the name is put together in the function ({norm(full)[:80]}): every concurrent call for a form of the same name in that directory uses the same file")
+    return n
+
+
 def _derived_names(fn_node, seed: str) -> set[str]:
     names = {seed}
     changed = True
